@@ -1,15 +1,16 @@
 #!/bin/bash
 # usage: evalmut.sh <patch.diff> <tier> <Cxx> [Cyy ...]
 # Runs the given checks against a scratch worktree of /repo HEAD with the seeded change applied
-# (VERIF_REPO), removes the worktree afterwards and restores the committed evidence files.
+# (VERIF_REPO), removes the worktree afterwards; evidence and replay files of these runs go to a scratch directory
+# (VERIF_SCRATCH), /verif/evidence is not touched.
 P=$(realpath "$1"); TIER=$2; shift 2
 cd /verif
 WT=/tmp/eval_$$
 git -C /repo worktree add -q --detach $WT HEAD || exit 2
-trap 'git -C /repo worktree remove --force $WT; rm -rf /verif/build/alt_*; git -C /verif checkout -- evidence 2>/dev/null' EXIT
+trap 'git -C /repo worktree remove --force $WT; rm -rf /verif/build/alt_$(echo -n $WT | sha1sum | cut -c1-8); rm -rf /tmp/evs_$$' EXIT
 git -C $WT apply "$P" || { echo "patch does not apply"; exit 2; }
 for c in "$@"; do
-  out=$(VERIF_REPO=$WT ./check $c $TIER 2>&1); rc=$?
+  out=$(VERIF_REPO=$WT VERIF_SCRATCH=/tmp/evs_$$ ./check $c $TIER 2>&1); rc=$?
   echo "== $c $TIER rc=$rc: $(echo "$out" | grep -c '^VIOLATION') violation line(s); $(echo "$out" | tail -1)"
   echo "$out" | grep -A1 '^VIOLATION' | head -4 | cut -c1-500
   echo "$out" | grep '^INCONCLUSIVE' | head -2 | cut -c1-300
